@@ -136,8 +136,10 @@ impl Space {
         } else if yens {
             // Yen's second round: a three-edge least-cost route and k >= 3 make the algorithm branch off a route accepted in
             // the first round (see braided_corridors)
-            let mut algos = vec![(Algo::Yens { k: 3, under: Box::new(Algo::Dijkstra), sim: Some(Sim::AcceptAll), term: None }, None)];
+            // (k = 4: the second round of a three-edge least-cost route yields routes three and four)
+            let mut algos = vec![(Algo::Yens { k: 4, under: Box::new(Algo::Dijkstra), sim: Some(Sim::AcceptAll), term: None }, None)];
             if tier == Tier::Thorough {
+                algos.push((Algo::Yens { k: 3, under: Box::new(Algo::Dijkstra), sim: Some(Sim::AcceptAll), term: None }, None));
                 algos.push((Algo::Yens { k: 4, under: Box::new(Algo::Dijkstra), sim: None, term: None }, None));
                 algos.push((Algo::Yens { k: 1, under: Box::new(Algo::AStar(Some(1.0))), sim: Some(Sim::EdgeCos(0.99)), term: None }, Some(3)));
             }
